@@ -95,6 +95,7 @@ type interpreter struct {
 	reflectPackage     *ssa.Package           // the fake reflect package
 	errorMethods       methodSet              // the method set of reflect.error, which implements the error interface.
 	rtypeMethods       methodSet              // the method set of rtype, which implements the reflect.Type interface.
+	hasherMethods      methodSet
 	runtimeErrorString types.Type             // the runtime.errorString type
 	sizes              types.Sizes            // the effective type-sizing function
 	goroutines         int32                  // atomically updated
@@ -208,6 +209,8 @@ func lookupMethod(i *interpreter, typ types.Type, meth *types.Func) *ssa.Functio
 		return i.rtypeMethods[meth.Id()]
 	case errorType:
 		return i.errorMethods[meth.Id()]
+	case hasherType:
+		return i.hasherMethods[meth.Id()]
 	}
 	return i.prog.LookupMethod(typ, meth.Pkg(), meth.Name())
 }
